@@ -1,4 +1,4 @@
-from . import rules_panic, rules_text, inputs
+from . import rules_panic, rules_text, rules_sq, inputs
 
 
 CONTROL_KEYS = ['PANIC-SITE/<ctl_parse::Num as std::str::FromStr>::from_str/std::result::Result::<T, E>::unwrap',
@@ -31,11 +31,15 @@ def run(ctx, prog, facts, tier):
     ctx.floor('integer parses inside the notation parsers', nparse, 1)
     rules_text.check_piece_direction_tables(ctx, prog)
     rules_text.check_action_delegation(ctx, prog)
+    I2 = inputs.make_interp(prog)
+    rules_sq.check_conversions(ctx, prog, I2)
+    rules_sq.check_display(ctx, prog, I2)
+    rules_sq.check_parser(ctx, prog)
     ctx.floor('C16 parser panic site kinds (function, construct)', ctx.analysed.get('panic_site_kinds_parser', 0), 3)
     ctx.exhaustive = True
     ctx.assumptions += [
-        'NOT decided: that Square::new / column_char / row / index / as_bit_board / from_bit_board are mutually inverse on all 64 '
-        'squares (modular arithmetic on run-time values)',
+        'the 64 squares are enumerated as constants through the interpreter (finite domain); which of the two characters of the '
+        'text is the file is not distinguished by the opaque-string model (the element token is position-blind)',
         'contract table: chars/collect/to_string/parse::<usize>/RangeInclusive::contains do not panic; Vec indexing is discharged '
         'from the dominating length comparison']
     return ('Panic-freedom of the four notation parsers for an arbitrary opaque string (vector indexing and slicing discharged from '
